@@ -27,7 +27,7 @@ def rb(n):
 
 comp = Component("session-keys-with-real-primitives",
                  "plaintext lengths 0..48 and random up to 300 x keys made by BeaconKeys(aes, hmac, iv) / from_aes_rand(rand, iv=) / "
-                 "from_beacon_metadata(md, iv=) / the same with the default IV; ciphertext == hand-chained AES-128-CBC of plaintext + "
+                 "from_beacon_metadata(md, iv=) / the same with the default IV, handed to encrypt_packet / decrypt_packet by keyword and positionally; ciphertext == hand-chained AES-128-CBC of plaintext + "
                  "'A' padding under the CONFIGURED iv, signature == HMAC-SHA256[:16]; decrypt returns plaintext + 1..16 'A'; any one-bit "
                  "change of ciphertext / signature / HMAC key, or no HMAC key, raises ValueError; 400 cases quick / 6000 thorough")
 N = 400 if TIER == "quick" else 6000
@@ -57,10 +57,18 @@ for i in range(N):
         padn = 16 - n % 16
         want_ct = cbc_encrypt(aes, want_iv, pt + b"A" * padn)
         want_sig = _hmac.new(hm, want_ct, hashlib.sha256).digest()[:16]
-        pkt = encrypt_packet(pt, **keys._asdict())
-        back = decrypt_packet(pkt, **keys._asdict())
+        # the session keys are handed over both ways callers do it: by keyword and positionally (aes_key, hmac_key, iv)
+        if i % 2:
+            pkt = encrypt_packet(pt, *keys)
+            back = decrypt_packet(pkt, *keys)
+            back_nv = decrypt_packet(pkt, keys.aes_key, keys.hmac_key, keys.iv, False)
+        else:
+            pkt = encrypt_packet(pt, **keys._asdict())
+            back = decrypt_packet(pkt, **keys._asdict())
+            back_nv = decrypt_packet(pkt, keys.aes_key, iv=keys.iv, verify=False)
+        w["keys_passed"] = "positionally" if i % 2 else "by keyword"
         ok = (keys.aes_key == aes and keys.hmac_key == hm and keys.iv == want_iv and pkt.ciphertext == want_ct and pkt.signature == want_sig
-              and back == pt + b"A" * padn)
+              and back == pt + b"A" * padn and back_nv == back)
         w.update(ciphertext_equal=pkt.ciphertext == want_ct, signature_equal=pkt.signature == want_sig, roundtrip=back == pt + b"A" * padn,
                  iv_of_keys=keys.iv.hex())
         # tampering
